@@ -24,6 +24,7 @@ from exabgp.reactor.api.dispatch.common import (
     Handler,
     NoMatchingPeers,
     dispatch,
+    is_selector_start,
 )
 
 if TYPE_CHECKING:
@@ -177,8 +178,21 @@ def dispatch_v6(
     tree = _get_v6_tree()
     handler, peers = dispatch(tree, tokeniser, reactor, service)
 
+    # did the command name the peers it applies to ("peer <selector> ...")?
+    peer_tree = tree.get('peer')
+    selector_given = (
+        len(token_list) > 1
+        and token_list[0] == 'peer'
+        and isinstance(peer_tree, dict)
+        and token_list[1] not in peer_tree
+        and is_selector_start(token_list[1])
+    )
+
     # Some handlers require all peers if none specified
     if handler in _v6_needs_peers() and not peers:
+        if selector_given:
+            # a selector which matches nothing selects nothing: it must not become every peer
+            raise NoMatchingPeers(command)
         peers = list(reactor.peers(service))
         if not peers:
             raise NoMatchingPeers(command)
